@@ -143,6 +143,18 @@ CLAIMED: dict[str, tuple[str, str, str, str]] = {
             "`returned unchanged` is judged on printed text; Effect through parse_config_file; histories <=8 "
             "commands.",
             TECH),
+    "C01": ("DESIGN.md §5 C01",
+            "spec/Nesting.tla builds every control-structure tree with <=3 structures over 8 kinds and their "
+            "branch forms (61k functions), defines the documented depth and checks WrapAddsOne, FlipOnce, "
+            "BranchesFlat and DepthAgrees on every tree; each tree is rendered into every language that can "
+            "express it (self-checked with ast / tree-sitter), 15 functions per file in rotating function forms "
+            "with colliding method names, and linted with every limit 1..max+1 through config and --max-depth; "
+            "NestingTrace.tla recomputes DepthOf and judges every file (DepthEq / FlagEq / HeaderLine); the "
+            "cross-language clause follows because the expectation has no language argument.",
+            "Bodies start with one plain statement; nested function definitions, lambdas, comprehensions and "
+            "TS/Rust `else if` chains are not generated (undocumented); quick tier samples 4 500 functions per "
+            "language, thorough runs all.",
+            TECH),
 }
 
 REASON_NOT_YET = ("no check registered yet in this build; the TLA+ technique applies (see DESIGN.md §5) "
